@@ -3,7 +3,7 @@
    Items are trees: Go's pointer identity ([seen] map: sharing shortcut and ErrRecursive for cycles) is not
    modelled — a shared sub-item serialises to the same bytes as its copy.
    Correct behaviour is modelled where the unchanged tree panics: an Integer whose length prefix exceeds 32
-   is an error (F11), a Map key that is not Boolean/Integer/ByteString<=64 is an error (F16). *)
+   is an error (F11; an element count >= 2^63 likewise, F28), a Map key that is not Boolean/Integer/ByteString<=64 is an error (F17). *)
 From NG Require Import Common.Tactics Codec.Bigint Codec.Wire.
 Open Scope Z_scope.
 
